@@ -237,9 +237,11 @@ Proof.
   clear Hv. rewrite dec_value_acc_app in Hv'.
   destruct (dec_value_acc s 0) as [v|] eqn:Ev; [|discriminate].
   rewrite dec_value_acc_cons in Hv'. destruct (digit_of c) as [d|] eqn:Ed; [|discriminate].
-  rewrite dec_value_acc_nil in Hv'. injection Hv' as <-. apply digit_of_inv in Ed. destruct Ed as [Hd ->].
+  rewrite dec_value_acc_nil in Hv'.
+  assert (En : 10 * v + d = n) by (injection Hv' as X; exact X). clear Hv'. subst n.
+  apply digit_of_inv in Ed. destruct Ed as [Hd ->].
   destruct s as [|c0 s].
-  - rewrite dec_value_acc_nil in Ev. injection Ev as <-.
+  - rewrite dec_value_acc_nil in Ev. assert (Ev0 : 0 = v) by (injection Ev as X; exact X). subst v.
     replace (10 * 0 + d) with d by lia. rewrite dec_small by exact Hd. reflexivity.
   - (* at least two characters: the head is not '0', so v >= 1 *)
     assert (Hc0 : b2n c0 <> 48).
@@ -253,8 +255,8 @@ Proof.
     { apply IH. split; [unfold dec_value; exact Ev|].
       simpl. destruct s; [reflexivity|]. apply negb_true_iff. apply N.eqb_neq. exact Hc0. }
     rewrite dec_big by lia.
-    replace ((10 * v + d) / 10) with v by (symmetry; apply N.div_unique with d; lia).
-    replace ((10 * v + d) mod 10) with d by (symmetry; apply N.mod_unique with v; lia).
+    replace ((10 * v + d) / 10) with v by (apply N.div_unique with d; lia).
+    replace ((10 * v + d) mod 10) with d by (apply N.mod_unique with v; lia).
     rewrite <- Hs. reflexivity.
 Qed.
 
